@@ -79,6 +79,173 @@ def gate_oracle(c, toks):
     return None
 
 
+# ---------- bounded queue: try_push / try_pop claim loops against BqModel ----------
+def bsplit(c):
+    cap, n = c[0], c[1]
+    p = 2
+    scripts = []
+    for t in range(n):
+        ln = c[p]
+        ops = c[p + 1:p + 1 + 2 * ln]
+        scripts.append([(ops[i], ops[i + 1]) for i in range(0, len(ops), 2)])
+        p += 1 + 2 * ln
+    return cap, scripts, c[p + 1:]
+
+
+def bdescribe(c):
+    cap, scripts, sched = bsplit(c)
+    return "capacity %d; " % cap + " || ".join("T%d: %s" % (t, ",".join("try_push(%d)" % a if o == 3 else "try_pop" for o, a in sc))
+                                               for t, sc in enumerate(scripts)) + "  schedule=" + "".join(map(str, sched))
+
+
+def bparse(toks):
+    i, j, k = toks.index("EV"), toks.index("HIST"), toks.index("FIN")
+    ev = [int(x) for x in toks[i + 1:j]]
+    ev = [tuple(ev[a:a + 7]) for a in range(0, len(ev), 7)]
+    h = [int(x) for x in toks[j + 1:k]]
+    hist = [tuple(h[a:a + 6]) for a in range(0, len(h), 6)]
+    left = [int(x) for x in toks[toks.index("LEFT") + 1:]] if "LEFT" in toks else []
+    return ev, hist, left
+
+
+def blinearizable(cap, ops, left):
+    """FIFO queue of capacity cap: try_push succeeds iff fewer than cap items are stored at its linearization point,
+    try_pop fails iff none is."""
+    n = len(ops)
+    if n > 12:
+        return True
+    done_all = (1 << n) - 1
+    from functools import lru_cache
+
+    @lru_cache(maxsize=None)
+    def go(mask, q):
+        if mask == done_all:
+            return list(q) == left
+        for i in range(n):
+            if mask >> i & 1:
+                continue
+            if any(not (mask >> j & 1) and j != i and ops[j][5] < ops[i][4] for j in range(n)):
+                continue
+            tid, op, arg, res, inv, resp = ops[i]
+            if op == 3:
+                if res == 1:
+                    if len(q) < cap and go(mask | 1 << i, q + (arg,)):
+                        return True
+                elif len(q) >= cap and go(mask | 1 << i, q):
+                    return True
+            else:
+                if res == -1:
+                    if not q and go(mask | 1 << i, q):
+                        return True
+                elif q and q[0] == res and go(mask | 1 << i, q[1:]):
+                    return True
+        return False
+    return go(0, ())
+
+
+def bgate_oracle(c, toks):
+    if not toks or toks[0].startswith("CRASH"):
+        return ("bqueue-crash", bdescribe(c))
+    if toks[-1] == "HANG":
+        return ("bqueue-no-progress", "%s: operations never finish under round-robin completion" % bdescribe(c))
+    ev, hist, left = bparse(toks)
+    cap = c[0]
+    if not blinearizable(cap, hist, left):
+        return ("bqueue-not-linearizable", "%s: history %s with final contents %s is not linearizable to a FIFO queue of capacity %d "
+                "(try_push may fail only when full, try_pop only when empty)" % (
+                    bdescribe(c), [("T%d" % o[0], "try_push(%d)->%d" % (o[2], o[3]) if o[1] == 3 else "try_pop->%d" % o[3]) for o in hist], left, cap))
+    return None
+
+
+def gen_bgate(ctx, n):
+    rng = ctx.rng
+    cases = []
+    for _ in range(n):
+        T = rng.randint(2, 3)
+        cap = rng.choice([1, 1, 2, 2, 3])
+        c = [cap, T]
+        val = 1
+        for t in range(T):
+            ln = rng.randint(1, 4 if T == 2 else 3)
+            ops = []
+            for _ in range(ln):
+                if rng.random() < 0.6:
+                    ops += [3, val]; val += 1
+                else:
+                    ops += [2, 0]
+            c += [ln] + ops
+        c.append(-1)
+        sched = []
+        L = rng.randint(20, 200)
+        while len(sched) < L:
+            sched += [rng.randrange(T)] * rng.randint(1, 10)
+        cases.append(c + sched)
+    return cases
+
+
+def bq_tie(ctx, exe, cases):
+    """The real bounded queue runs each case under the gate; its accesses to head_counter / tail_counter, in their
+    real global order, become the schedule of BqModel; per thread, the model must produce the same accesses (kind,
+    memory order, values seen and written, CAS outcome) and the same results."""
+    name = "bq-gate"
+    lines = []
+    rest = cases
+    guard = 0
+    while rest and guard < 50:
+        guard += 1
+        rc, out, err = ctx.run_driver(exe, ["bgate"], rest, timeout=600)
+        lines += out
+        if len(lines) < len(cases) and (not out or not out[-1].endswith("HANG")):
+            lines.append("CRASH rc=%s %s" % (rc, err[-200:].replace("\n", " ")))
+        rest = cases[len(lines):]
+    minputs = []
+    parsed = []
+    for c, ln in zip(cases, lines):
+        toks = ln.split()
+        if not toks or toks[0].startswith("CRASH") or toks[-1] == "HANG":
+            parsed.append(None)
+            minputs.append([0, 0, -1])
+            continue
+        ev, hist, left = bparse(toks)
+        cap, scripts, _ = bsplit(c)
+        mi = [cap, len(scripts)]
+        for sc in scripts:
+            mi += [len(sc)] + [o for o, a in sc]
+        mi += [-1] + [e[0] for e in ev if e[1] in (1, 2)]
+        minputs.append(mi)
+        parsed.append((ev, hist, left))
+    model = ctx.modelrun("bq", minputs)
+    nmis = nviol = 0
+    for i, c in enumerate(cases):
+        toks = lines[i].split()
+        ctx.count((name, tuple(c)), True, "bq-gate T=%d cap=%d" % (c[1], c[0]))
+        viol = bgate_oracle(c, toks)
+        rep = {"tie": name, "case": c, "case_text": bdescribe(c), "impl": lines[i][:2000], "model": " ".join(map(str, model[i]))[:2000]}
+        if viol:
+            nviol += 1
+            if nviol <= 3:
+                ctx.add(Finding("violation", viol[0], "%s: %s" % (name, viol[1]), rep))
+            continue
+        ev, hist, left = parsed[i]
+        m = model[i]
+        mev = [tuple(m[a:a + 7]) for a in range(0, len(m) - 3, 7)]
+        mev = [(e[0], e[1], e[2], e[3], e[4], 0, e[6]) if e[2] >= 100 else e for e in mev]   # the claimed ticket in a note is model-only
+        T = c[1]
+        ok = m[-1] == 1
+        for t in range(T):
+            if [e for e in ev if e[0] == t] != [e for e in mev if e[0] == t]:
+                ok = False
+        if ok:
+            ctx.traces_validated += 1
+            continue
+        nmis += 1
+        if nmis <= 3:
+            ctx.add(Finding("broken", "broken:tie:" + name, "correspondence %s: the real queue's accesses to head_counter/tail_counter or its results differ from BqModel's "
+                            "on %s, and this history is linearizable" % (name, bdescribe(c)), rep))
+    ctx.ties.append({"name": name, "cases": len(cases), "disagreements": nmis, "oracle_violations": nviol})
+    return nmis, nviol
+
+
 def gen_gate(ctx, n):
     rng = ctx.rng
     cases = []
@@ -121,6 +288,14 @@ def run(ctx):
                      "oracle = the invocation/response history with final contents is linearizable to a FIFO queue (exhaustive Wing-Gong search)")
     oracle_tie(ctx, "queue-gate", exe, ["gate"], gen_gate(ctx, ctx.scale(1500, 50000)), gate_oracle, describe=gdescribe,
                bucket=lambda c: "queue-gate T=%d" % c[0], timeout=600)
+    ctx.rules.append("bq-gate: 2-3 logical threads x 1-4 try_push/try_pop on the real concurrent_bounded_queue<int> (capacity 1-3) under seeded bursty interleavings; "
+                     "tie = per-thread sequence of head_counter/tail_counter accesses and results equals BqModel's when BqModel is driven by the real global order of those accesses; "
+                     "oracle = history linearizable to a bounded FIFO queue (try_push fails only when full, try_pop only when empty)")
+    nmis, nviol = bq_tie(ctx, exe, gen_bgate(ctx, ctx.scale(1500, 40000)))
+    if nmis and not nviol:
+        # search phase: the tie is broken and the first pass found no failing history: more 3-thread small-capacity schedules
+        more = [c for c in gen_bgate(ctx, ctx.scale(6000, 60000)) if c[1] == 3]
+        oracle_tie(ctx, "bq-gate-search", exe, ["bgate"], more, bgate_oracle, describe=bdescribe, timeout=900)
     # real threads
     bad = 0
     n = ctx.scale(10, 150)
@@ -150,7 +325,11 @@ def run(ctx):
 def replay(ctx, rep):
     lib, err = ctx.build_lib("tbb")
     exe, err = ctx.build_driver("drv_queue", libs=[lib], extra=["-include", PRELUDE])
-    if rep.get("tie") == "queue-gate":
+    if rep.get("tie") in ("bq-gate", "bq-gate-search"):
+        print(bq_tie(ctx, exe, [rep["case"]]))
+        for f in ctx.findings:
+            print(f.kind, f.key, f.detail)
+    elif rep.get("tie") == "queue-gate":
         oracle_tie(ctx, "queue-gate", exe, ["gate"], [rep["case"]], gate_oracle, describe=gdescribe)
     else:
         rc, lines, err = ctx.run_driver(exe, rep["args"], timeout=120)
